@@ -302,6 +302,18 @@ func SameRaw(a, b [8][]byte) (int, bool) {
 	return -1, true
 }
 
+// Touch makes a day exist without adding a block (a write session that wrote nothing).
+func (s *Store) Touch(iface string, day int64) {
+	m := s.Ifaces[iface]
+	if m == nil {
+		m = map[int64]*Day{}
+		s.Ifaces[iface] = m
+	}
+	if m[day] == nil {
+		m[day] = &Day{}
+	}
+}
+
 // AddTo appends a block to an explicitly named day directory (raw-level writers choose the
 // directory independently of the block timestamp).
 func (s *Store) AddTo(iface string, day int64, b Block) {
